@@ -6,6 +6,7 @@ package protoutil
 
 // AsStringList only reads its argument and builds a new slice of the same length.
 //@ func AsStringList
+//@   vars src out i
 //@   property C01 C02
 //@   option prelude=opt
 //@   pure
@@ -17,5 +18,6 @@ package protoutil
 
 // NewListFromStrings builds a fresh list value; it only reads its argument.
 //@ func NewListFromStrings
+//@   vars s values i
 //@   property C02
 //@   pure
